@@ -5,7 +5,7 @@ Tie: T-gen (status enum + step fingerprints of Pick/Run/Close/Reset/Set*/balance
      semantically by tools/mgrpoints: before every atomic operation on the status word; trace
      conformance of every step against Netpoll.Manager.step) + T-diff of sequential calls + seeded stress,
      all judged by the Lean spec oracle (npdriver mgrspec)."""
-import glob, json, os, shutil
+import glob, json, os, shutil, time
 import common, mgrbuild, mgrrun
 
 LEVEL = 'proof'
@@ -193,7 +193,9 @@ def shrink(binary, seq, kind, wd):
         return seq
     cur = list(seq); tries = 0
     i = len(cur) - 2
-    while i >= 2 and tries < 60:
+    t0 = time.time()
+    # (time budget: a replay of a scenario that leaves pollers behind waits for each of them to close, load-scaled)
+    while i >= 2 and tries < 60 and time.time() - t0 < 45:
         cand = cur[:i] + cur[i + 1:]
         tries += 1
         r = mgrrun.replay_ops(binary, cand, wd)
